@@ -720,8 +720,21 @@ class EventGenerator:
         Yields:
             An iterator of sax events.
         """
+        text = None
         for value in values:
+            if isinstance(value, str):
+                # Adjacent text items are one run of character data
+                text = value if text is None else text + value
+                continue
+
+            if text is not None:
+                yield from self.convert_any_type(text, var, namespace)
+                text = None
+
             yield from self.convert_any_type(value, var, namespace)
+
+        if text is not None:
+            yield from self.convert_any_type(text, var, namespace)
 
     def convert_any_type(
         self, value: Any, var: XmlVar, namespace: str | None
